@@ -153,9 +153,14 @@ func RunPath(w *World, fn *ssa.Function, prefix []int, opts *Options, sess *smt.
 		case abortDone:
 			res.Outcome = "ok"
 		case abortEvent:
-			if len(res.Findings) > 0 {
+			switch {
+			case len(res.Findings) > 0:
 				res.Outcome = "violation"
-			} else {
+			case p.infeasibleEvent && len(res.Unknowns) > 0:
+				res.Outcome = "unknown"
+			case p.infeasibleEvent:
+				res.Outcome = "infeasible"
+			default:
 				res.Outcome = "ok" // known event
 			}
 		}
